@@ -543,7 +543,19 @@ class LanguageGraph():
                     next_link = None)
                 new_dep_chain.left_chain = lh_dep_chain
                 new_dep_chain.right_chain = rh_dep_chain
-                return (lh_target_asset,
+
+                new_target_asset = lh_target_asset
+                if step_expression['type'] == 'union':
+                    # A union also yields the assets of the right hand side,
+                    # its type is the closest common super asset of the two.
+                    common_superassets = \
+                        lh_target_asset.get_all_common_superassets(
+                            rh_target_asset)
+                    new_target_asset = next(
+                        asset for asset in \
+                            lh_target_asset.get_all_superassets()
+                        if asset.name in common_superassets)
+                return (new_target_asset,
                     new_dep_chain,
                     None)
 
